@@ -12,7 +12,7 @@ from common import (V, pair_faults, E3_METHODS, E3_NAMES, E3_CANON, EXC_ALL, EXC
 
 PROP = 'C04'
 LEVEL = 'exploration'
-N_QUICK = 12000
+N_QUICK = 48000
 N_THOROUGH = 1500000
 WALL_QUICK = 100
 WALL_THOROUGH = 1500
@@ -268,7 +268,7 @@ def sweep_expand(cell):
         yield base
         for tag, faults in single_faults(recs[4], exc_classes=excs,
                                          reply_kinds=['drop', 'drop_request', 'err_bang', 'err_named',
-                                                      'stale_instead', 'stale_front', 'late26']):
+                                                      'stale_instead', 'stale_front', 'stale_near', 'late26']):
             yield with_faults(base, faults)
         if m not in ('reboot', 'bootload'):
             head_scn = {'prop': PROP, 'world': _world(), 'ops': base['ops'][:5], 'faults': {}}
